@@ -118,4 +118,62 @@ def ReadOnlyRes (Γ : Env) (τ : ETy) : Prop :=
   ∃ id kind elem, τ.ty.layer = .other id ∧ Γ.others[id]? = some (.resource kind elem) ∧
     RsslVerif.Gen.ElabTables.subscriptReadOnly.contains kind = true ∧ elem.layer.isNumeric = true
 
+/-! ## written places (IR level; independent of `check_mutable_place`) -/
+
+/-- the type is const for the purpose of writes: a `const` modifier outermost, or an array (of arrays ...) of const elements
+    (`const float a[3]` is an array type without a modifier of its own) -/
+inductive ConstTy (Γ : Env) : Ty → Prop where
+  | mod {t : Ty} : t.mod.isConst = true → ConstTy Γ t
+  | array {t elem : Ty} {id len : Nat} :
+      t.mod = {} → t.layer = .other id → Γ.others[id]? = some (.array elem len) → ConstTy Γ elem → ConstTy Γ t
+
+/-- a buffer / texture / other object: its elements are not part of the value of the variable that holds the handle -/
+def IsObject (Γ : Env) (l : Layer) : Prop :=
+  ∃ id, l = .other id ∧ (Γ.others[id]? = some .object ∨ ∃ kind elem, Γ.others[id]? = some (.resource kind elem))
+
+/-- the node selects a part of another value -/
+def isProjection : IExpr → Bool
+  | .member _ _ _ => true
+  | .swizzle _ _ => true
+  | .mswizzle _ _ => true
+  | .index _ _ => true
+  | _ => false
+
+/-- **A mutable place** — what the target of an assignment, the operand of `++` / `--` and an `out` / `inout` argument must
+    be: the expression and **every object on the way from the written part to the variable** is, under the IR's typing
+    judgment, an lvalue of non-const type.  The walk goes through struct members, swizzles, matrix swizzles and subscripts of
+    arrays / vectors / matrices; an element of a buffer / texture is a place whatever the handle expression is. -/
+inductive MutablePlace (Γ : Env) : IExpr → Prop where
+  | member {o : IExpr} {sid idx : Nat} {τ : ETy} :
+      HasType Γ (.member o sid idx) τ → τ.vt = .lvalue → ¬ ConstTy Γ τ.ty → MutablePlace Γ o →
+      MutablePlace Γ (.member o sid idx)
+  | swizzle {o : IExpr} {slots : List Nat} {τ : ETy} :
+      HasType Γ (.swizzle o slots) τ → τ.vt = .lvalue → ¬ ConstTy Γ τ.ty → MutablePlace Γ o →
+      MutablePlace Γ (.swizzle o slots)
+  | mswizzle {o : IExpr} {slots : List (Nat × Nat)} {τ : ETy} :
+      HasType Γ (.mswizzle o slots) τ → τ.vt = .lvalue → ¬ ConstTy Γ τ.ty → MutablePlace Γ o →
+      MutablePlace Γ (.mswizzle o slots)
+  | element {o i : IExpr} {τ τo : ETy} :
+      HasType Γ (.index o i) τ → τ.vt = .lvalue → ¬ ConstTy Γ τ.ty → HasType Γ o τo → ¬ IsObject Γ τo.ty.layer →
+      MutablePlace Γ o → MutablePlace Γ (.index o i)
+  | resourceElement {o i : IExpr} {τ τo : ETy} :
+      HasType Γ (.index o i) τ → τ.vt = .lvalue → ¬ ConstTy Γ τ.ty → HasType Γ o τo → IsObject Γ τo.ty.layer →
+      MutablePlace Γ (.index o i)
+  | root {e : IExpr} {τ : ETy} :
+      HasType Γ e τ → τ.vt = .lvalue → ¬ ConstTy Γ τ.ty → isProjection e = false → MutablePlace Γ e
+
+/-- `e` is `b` followed by projection steps (struct members, swizzles, subscripts), none of which subscripts a buffer /
+    texture -/
+inductive ProjOf (Γ : Env) : IExpr → IExpr → Prop where
+  | refl (b : IExpr) : ProjOf Γ b b
+  | member {o b : IExpr} {sid idx : Nat} : ProjOf Γ o b → ProjOf Γ (.member o sid idx) b
+  | swizzle {o b : IExpr} {slots : List Nat} : ProjOf Γ o b → ProjOf Γ (.swizzle o slots) b
+  | mswizzle {o b : IExpr} {slots : List (Nat × Nat)} : ProjOf Γ o b → ProjOf Γ (.mswizzle o slots) b
+  | index {o b i : IExpr} : ProjOf Γ o b → (∀ τo, HasType Γ o τo → ¬ IsObject Γ τo.ty.layer) → ProjOf Γ (.index o i) b
+
+/-- what `out` / `inout` arguments must be -/
+def OutArgsPlaces (Γ : Env) : List RsslVerif.Model.Overload.Param → IArgs → Prop
+  | p :: ps, .cons e r => (p.io.needsLvalue = true → MutablePlace Γ e) ∧ OutArgsPlaces Γ ps r
+  | _, _ => True
+
 end RsslVerif.Spec.ElabX
